@@ -192,6 +192,38 @@ pub fn run(tier: Tier, seed: u64) -> i32 {
             });
         }
     }
+    // far beyond the enumerated scope: 63, 64 and 70 X inputs in one row (2^64 and more executed rows):
+    // rows are produced lazily, the first 40 are compared
+    for nx in [63usize, 64, 70] {
+        let mut sigs: Vec<Sig> = (0..nx).map(|i| Sig::inp(&format!("I{i}"), 1, 0)).collect();
+        sigs.push(Sig::inp("CLK", 1, 0));
+        sigs.push(Sig::out("Q", 4));
+        let mut header: Vec<String> = (0..nx).map(|i| format!("I{i}")).collect();
+        header.push("CLK".into());
+        header.push("Q".into());
+        for with_c in [false, true] {
+            let mut row: Vec<Entry> = (0..nx).map(|_| Entry::X).collect();
+            row.push(if with_c { Entry::C } else { l(1) });
+            row.push(l(5));
+            let prog = Program { header: header.clone(), body: vec![Stmt::Row(row)] };
+            let text = text(&prog);
+            let script = vec![Step::Ans(vec![("Q".into(), V::Num(5))])];
+            let r = ref_run_fuel(&prog, &sigs, &script, 100_000, 40);
+            let mut opts = RunOpts::new(40);
+            opts.repeat_last = true;
+            opts.budget = 10_000_000;
+            let obs = run_dynamic(&text, &sigs, true, &script, &opts);
+            total.evals += 1;
+            total.nontrivial += 1;
+            total.witness("sixty_four_and_more_x_inputs");
+            let proj = Proj { input_values: true, expected: true, output: false, checked_kind: true, lines: false, vars: false, verdicts: false };
+            if let Some((k, m)) = run_mismatch(&r, &obs, proj, None) {
+                total.violation(&format!("large scale: {}", classify(&m)), (1 << 61) + nx as u64 * 2 + with_c as u64, format!("{nx} X inputs in one row{}: the first 40 executed rows\nfirst difference at {m} (item {k})", if with_c { " and a clock" } else { "" }), || {
+                    json!({"kind": "dynamic", "text": text, "signals": sigs_json(&sigs), "driver_overrides_write_input": true, "script": crate::driver::script_json(&script), "max_next": 40, "after_end": 0, "continue_after_error": false, "seed": 1, "repeat_last": true, "extra_known": [], "expected": ref_items_brief(&r).into_iter().take(4).collect::<Vec<_>>(), "observed": obs_items_brief(&obs).into_iter().take(k + 3).collect::<Vec<_>>(), "mismatch": m})
+                });
+            }
+        }
+    }
     for cfg in configs(tier) {
         let header: Vec<String> = cfg.header.clone();
         // shape families: 0 = plain menus, 1.. = with one bits(2,k) pair
@@ -428,7 +460,7 @@ pub fn run(tier: Tier, seed: u64) -> i32 {
         seed,
         rule: "every combination of per-column entries {0,1,X,C,Z,(k)} / {5,X,C,(k+1),Z} / expected {X,Z,2,(k)} (and bits(2,k) over adjacent columns), in each of 4 program forms, for each configuration; mixed-radix index decoded injectively; plus every ordered sequence of 2 (thorough: 3) rows over a reduced menu with two clock columns; a case is non-trivial if a row holds X or C in an input column".into(),
         assumptions: vec!["reference expansion in refsem.rs::do_row is the oracle".into(), "loop bounds are >= 1 here (bounds <= 0 are C01's)".into()],
-        required_witnesses: vec!["ten_x_inputs_and_a_clock", "x_expansion", "c_expansion", "x_and_c_composed", "bits_row", "depth 0", "loop depth 1", "loop depth 2", "repeat row", "variables named C X Z c x z", "loop counter named X", "history_of_rows", "history_with_a_driver_fault_then_carried_on", "row_reading_the_device_while_it_is_expanded", "iterator_advanced_with_nth"],
+        required_witnesses: vec!["ten_x_inputs_and_a_clock", "sixty_four_and_more_x_inputs", "x_expansion", "c_expansion", "x_and_c_composed", "bits_row", "depth 0", "loop depth 1", "loop depth 2", "repeat row", "variables named C X Z c x z", "loop counter named X", "history_of_rows", "history_with_a_driver_fault_then_carried_on", "row_reading_the_device_while_it_is_expanded", "iterator_advanced_with_nth"],
         exhaustive_note: "all row shapes over the stated menus for every configuration and program form".into(),
         e1: false,
     };
